@@ -91,33 +91,10 @@ theorem LJ_mono {s s' : State} (h : LJ s)
 
 /-! ### `discard()`, `advance()`, `detach()` -/
 
-theorem orphan_UC {j : Job} (h : JL j) : ∀ u ∈ j.orphan, UC u := by
-  intro u hu
-  unfold Job.orphan at hu
-  split at hu
-  · simp at hu
-  · next f hf =>
-    split at hu
-    · simp at hu
-    · next hc =>
-      simp only [List.mem_singleton] at hu; subst hu
-      exact ⟨h f hf (by simpa using hc), rfl⟩
-
-theorem orphan_nil {j : Job} (h : JC j) : j.orphan = [] := by
-  unfold Job.orphan
-  split
-  · rfl
-  · next f hf => simp [h f hf]
-
 theorem LC_advance {c : Cfg} {s : State} (p : Nat) (h : LC s) : LC (advance c s p) := by
   obtain ⟨a1, a2, a3⟩ := h
-  refine ⟨?_, ?_, a3⟩
-  · intro u hu
-    simp only [advance, List.mem_append, List.mem_flatMap] at hu
-    rcases hu with ⟨j, hj, hu⟩ | hu
-    · exact orphan_UC (a2 j (List.mem_filter.1 hj).1) u hu
-    · exact a1 u hu
-  · intro j hj; exact a2 j (List.mem_filter.1 hj).1
+  refine ⟨a1, ?_, a3⟩
+  intro j hj; exact a2 j (List.mem_filter.1 hj).1
 
 theorem detach_flds (s : State) (k : Option Nat) :
     (detach s k).orphans = s.orphans ∧ (detach s k).retrQ = s.retrQ ∧
@@ -294,13 +271,8 @@ theorem LJ_parseFinish {s1 : State} (u : Nat) (h : LC s1) (hpp : s1.pphase = non
     LJ (parseFinish s1 u) := by
   obtain ⟨a1, a2, a3⟩ := h
   have hnil : (parseFinish s1 u).orphans = [] := by
-    show popOrphans (fun _ => true) (s1.retrQ.flatMap Job.orphan ++ s1.orphans) = []
-    apply popOrphans_all_nil
-    intro x hx
-    simp only [List.mem_append, List.mem_flatMap] at hx
-    rcases hx with ⟨j, hj, hx⟩ | hx
-    · exact orphan_UC (a2 j hj) x hx
-    · exact a1 x hx
+    show popOrphans (fun _ => true) s1.orphans = []
+    exact popOrphans_all_nil a1
   have hq : (parseFinish s1 u).retrQ = [] := rfl
   have hb : ∀ ph ∈ (parseFinish s1 u).busy, PC ph := by
     intro ph hph
@@ -345,21 +317,12 @@ theorem LJ_parseEnd {c : Cfg} {s s' : State} (h : LJ s) (hs : stepParseEnd c s =
 
 /-! ### `do_retrieve` tail -/
 
-theorem LC_retrExit {s1 : State} {j : Job} (hj : JL j) (h1 : LC s1) : LC (retrExit s1 j) := by
+theorem LC_retrExit {s1 : State} (j : Job) (h1 : LC s1) : LC (retrExit s1 j) := by
   obtain ⟨a1, a2, a3⟩ := h1
-  refine ⟨?_, a2, a3⟩
-  intro u hu
-  simp only [retrExit, List.mem_append] at hu
-  rcases hu with hu | hu
-  · exact orphan_UC hj u hu
-  · exact a1 u hu
+  exact ⟨a1, a2, a3⟩
 
-theorem LJ_retrExit_nil {s1 : State} {j : Job} (hj : j.orphan = []) (h1 : LJ s1) :
-    LJ (retrExit s1 j) := by
-  refine LJ_mono h1 ?_ (fun _ h => h) (fun _ h => Or.inl h) rfl rfl
-  intro u hu
-  simp only [retrExit, hj, List.nil_append] at hu
-  exact hu
+theorem LJ_retrExit {s1 : State} (j : Job) (h1 : LJ s1) : LJ (retrExit s1 j) :=
+  LJ_mono h1 (fun _ h => h) (fun _ h => h) (fun _ h => Or.inl h) rfl rfl
 
 theorem LC_retrMove {c : Cfg} {s1 : State} (j : Job) (newc : Nat) (h1 : LC s1) :
     LC (retrMove c s1 j newc) ∧ (retrMove c s1 j newc).pdone = s1.pdone := by
@@ -438,14 +401,13 @@ theorem LJ_retrEnd {c : Cfg} {s s' : State} {j : Job} {k : Option Nat} (h : LJ s
     by_cases hpd : s1.pdone = true
     · rw [if_pos hpd] at hs
       simp only [Option.some.injEq] at hs; subst hs
-      have hjc : JC j := (h.od (hpd1 ▸ hpd)).2.2 _ hmem
-      exact LJ_retrExit_nil (orphan_nil hjc) h1
+      exact LJ_retrExit j h1
     · have hpd' : s1.pdone = false := by simpa using hpd
       rw [if_neg hpd] at hs
       by_cases hab : j.redundant = true
       · rw [if_pos hab] at hs
         simp only [Option.some.injEq] at hs; subst hs
-        exact LJ_of_LC (LC_retrExit hjl h1.lc) hpd'
+        exact LJ_of_LC (LC_retrExit j h1.lc) hpd'
       · rw [if_neg hab] at hs
         obtain ⟨h2, hp2⟩ := LC_retrMove (c := c) j newc h1.lc
         rw [hpd'] at hp2
@@ -453,7 +415,7 @@ theorem LJ_retrEnd {c : Cfg} {s s' : State} {j : Job} {k : Option Nat} (h : LJ s
         split at hs
         · split at hs
           · simp only [Option.some.injEq] at hs; subst hs
-            exact LJ_of_LC (LC_retrExit (JL_retrMoreJob newc hjl) h2) hp2
+            exact LJ_of_LC (LC_retrExit _ h2) hp2
           · simp only [Option.some.injEq] at hs; subst hs
             exact LJ_of_LC (LC_retrMore newc hjl h2) hp2
         · simp only [Option.some.injEq] at hs; subst hs
@@ -463,8 +425,8 @@ theorem LJ_retrEnd {c : Cfg} {s s' : State} {j : Job} {k : Option Nat} (h : LJ s
 
 /-! ### `do_scan` tail -/
 
-theorem LC_scanNew {s1 : State} (x : Nat) (h1 : LC s1) :
-    LC (scanNew s1 x) ∧ (scanNew s1 x).pdone = s1.pdone := by
+theorem LC_scanNew {c : Cfg} {s1 : State} (x : Nat) (h1 : LC s1) :
+    LC (scanNew c s1 x) ∧ (scanNew c s1 x).pdone = s1.pdone := by
   obtain ⟨a1, a2, a3⟩ := h1
   unfold scanNew; split
   · exact ⟨⟨a1, a2, a3⟩, rfl⟩
@@ -504,7 +466,7 @@ theorem LJ_scanEnd {c : Cfg} {s s' : State} {st k : Nat} (h : LJ s)
       · next hpd =>
         have hpd' : s1.pdone = false := by simpa using hpd
         simp only [Option.some.injEq] at hs; subst hs
-        obtain ⟨n1, e1⟩ := LC_scanNew x h1.lc
+        obtain ⟨n1, e1⟩ := LC_scanNew (c := c) x h1.lc
         obtain ⟨n2, e2⟩ := LC_scanRequeue (c := c) x (offs c (k + 1)) n1
         exact LJ_of_LC n2 (by rw [e2, e1]; exact hpd')
   · simp at hs
